@@ -210,7 +210,7 @@ def run(run):
                 'distinct = whole case; non-trivial = >= 2 front-ends compared or >= 2 connections interleaved')
     run.assumptions = ['data-access and identification requests only (diagnostic counters differ by design: Twisted counts bus messages)', 'broadcast compared only where offered',
                        'reference model and receivers', 'sync handlers run as real threads gated at recv by the scheduler']
-    n = run.scale(130, 4000)
+    n = run.scale(130, 16000)
     for framing in ('tcp', 'ascii', 'rtu', 'binary'):
         for i in range(n):
             case = gen_case(r, framing, uniq, per_read=1 if i % 2 else 3)
